@@ -94,7 +94,10 @@ func families(quick bool) []family {
 	}
 	// B: two sibling arrays: items multiset of 0..2 × tags multiset of 1..3
 	var b []Doc
-	for _, nm := range vals {
+	for ni, nm := range vals {
+		if quick && ni > 0 {
+			break // quick tier: one name
+		}
 		for _, is := range multisets(4, 0, 2) {
 			for _, ts := range multisets(2, 1, 3) {
 				d := Doc{Name: nm}
@@ -779,7 +782,8 @@ func partQ(r *mc.Run, ck *checker) {
 			}
 			for _, b := range j.c.built {
 				// quick: the one-segment nested index sees every query (score alternating), the
-				// other three indexes every second / fourth query; thorough: every index sees
+				// many-segment nested index every second, the one-segment flat index every
+				// fourth query; thorough: every index sees
 				// every query, the one-segment ones under both score options
 				switch {
 				case quick && b.nested && b.layout == layOne:
@@ -789,7 +793,7 @@ func partQ(r *mc.Run, ck *checker) {
 						ck.evalQ(j.c, b, q, []string{"none", ""}[qi/2%2], want[b.nested])
 					}
 				case quick:
-					if qi%4 == 1+2*b.layout {
+					if qi%4 == 1 && b.layout == layOne {
 						ck.evalQ(j.c, b, q, []string{"", "none"}[qi/4%2], want[b.nested])
 					}
 				case b.layout == layOne:
@@ -1138,6 +1142,22 @@ func partHDisk(r *mc.Run, ck *checker, states *stateSet) {
 	}
 	c := mc.Pick(r, cfg{[]string{"p", "q"}, 3}, cfg{[]string{"p", "q", "r"}, 3})
 	hs := enumerate(alphabet(c.ids), c.depth)
+	if r.Quick() {
+		// quick: two versions per parent only (v1 with two elements + a tag, v2 with two levels)
+		var keep [][]op
+		for _, h := range hs {
+			ok := true
+			for _, o := range h {
+				if !o.del && o.ver == 0 {
+					ok = false
+				}
+			}
+			if ok {
+				keep = append(keep, h)
+			}
+		}
+		hs = keep
+	}
 	if !r.Quick() {
 		for _, h := range enumerate(alphabet([]string{"p", "q"}), 4) {
 			if len(h) == 4 {
